@@ -895,6 +895,16 @@ GENS = {"clean": gen_clean, "SC": gen_sc, "F7": gen_f7, "F11": gen_f11, "F12": g
 # fixed minimal reproducers of the open known findings (KNOWN_FINDINGS.json).  The KNOWN-FINDING
 # line is produced by these histories only, i.e. it disappears when the reproducer stops failing.
 FIXED = {
+    # OPEN finding F15 (found by the thorough tier, 2026-10-01): a tie group that was EXTENDED keeps a first name that is not the name
+    # left in trainable_vars (set_same appends the caller's list, not head-first); a later set_same that brings in a FIXED parameter
+    # then sees an "untrainable head", skips the assignment of the fixed value and leaves the group free: the fixed parameter is
+    # overwritten by the group's value and floats with it
+    "clean": [
+        [("add_real", "v1", 2.125, None, True), ("add_real", "v2", -2.4375, None, True), ("add_real", "v3", None, [1.0, 2.0], True),
+         ("set_same", ["v2", "v1"], False), ("set_same", ["v1", "v3"], False), ("add_real", "v4", None, [1.0, 2.0], True),
+         ("set_fix", "v4", -0.1875, False), ("rename_var", "v4", "w5", False), ("add_real", "v6", 2.25, None, True),
+         ("set_same", ["w5", "v6", "v1"], False)],
+    ],
     "F7": [
         [("add_complex", "a", False, True, [1.0, 0.0]), ("add_complex", "b", False, True, [1.0, 0.0]),
          ("set_all_dict", {"ar": 3.0, "ai": 4.0, "br": 3.0, "bi": 4.0}, False),
